@@ -27,8 +27,15 @@ ClauseSync(e) ==
            IF AcceptTemporal(e.T, p1, ref, o1) # "ok" THEN "first_track_" \o AcceptTemporal(e.T, p1, ref, o1)
            ELSE IF AcceptTemporal(e.T2, p2, ref, o2) # "ok" THEN "second_track_" \o AcceptTemporal(e.T2, p2, ref, o2)
            ELSE "ok"
+\* The front ends that give a NUMBER OF POINTS instead of a step (resample(npts = n, mode), resample(factor = k, mode),
+\* track ** n, track * k) are DEFINED by the step form: step = (1 + 1e-8) * extent / n, extent = duration (temporal mode,
+\* also **) or length (spatial mode, also *).  That step is not on the model's lattice, so the event carries the verdict of
+\* the comparison of the two real results (same number of observations, same stamps, same coordinates).
+ClauseFront(e) == IF e.raised THEN "raised"
+                  ELSE IF ~e.same THEN "front_end_result_differs_from_the_step_form_with_the_documented_step" ELSE "ok"
 Clause(e) ==
-   IF e.raised THEN "raised"
+   IF e.ev = "front" THEN ClauseFront(e)
+   ELSE IF e.raised THEN "raised"
    ELSE IF ~e.lat THEN "output_not_on_the_lattice_of_exact_interpolants"
    ELSE IF e.ev = "sync" THEN ClauseSync(e)
    ELSE IF e.ev = "T" THEN AcceptTemporal(e.T, PP(e), IF e.kind = "step" THEN Requested(e.T, e.d) ELSE e.ref, Rows(e.out))
